@@ -163,10 +163,6 @@ func (c *ctx) decoTarget(id uint32, d deco) {
 	}
 }
 
-type layoutCtx struct {
-	std140 bool
-}
-
 func roundUp(v, a uint64) uint64 {
 	if a == 0 {
 		return v
@@ -182,23 +178,28 @@ type matInfo struct {
 }
 
 // scalarAlign: Vulkan "scalar alignment".
-func (c *ctx) scalarAlign(tid uint32) uint64 {
+func (c *ctx) scalarAlign(tid uint32) uint64 { return c.scalarAlignD(tid, 0) }
+
+func (c *ctx) scalarAlignD(tid uint32, depth int) uint64 {
 	m := c.m
 	t := m.types[tid]
-	if t == nil {
+	if t == nil || depth > 64 {
 		return 1
 	}
 	switch t.kind {
 	case tkInt, tkFloat:
+		if t.width < 8 {
+			return 1
+		}
 		return uint64(t.width / 8)
 	case tkBool:
 		return 4
 	case tkVector, tkMatrix, tkArray, tkRuntimeArray:
-		return c.scalarAlign(t.elem)
+		return c.scalarAlignD(t.elem, depth+1)
 	case tkStruct:
 		a := uint64(1)
 		for _, mem := range t.members {
-			if x := c.scalarAlign(mem); x > a {
+			if x := c.scalarAlignD(mem, depth+1); x > a {
 				a = x
 			}
 		}
@@ -216,6 +217,9 @@ func (c *ctx) baseAlign(tid uint32, mi matInfo, std140 bool, depth int) uint64 {
 	}
 	switch t.kind {
 	case tkInt, tkFloat:
+		if t.width < 8 {
+			return 1
+		}
 		return uint64(t.width / 8)
 	case tkBool:
 		return 4
@@ -223,6 +227,9 @@ func (c *ctx) baseAlign(tid uint32, mi matInfo, std140 bool, depth int) uint64 {
 		n := uint64(t.count)
 		if n == 3 {
 			n = 4
+		}
+		if n == 0 {
+			n = 1
 		}
 		return n * c.scalarAlign(t.elem)
 	case tkMatrix:
@@ -236,6 +243,9 @@ func (c *ctx) baseAlign(tid uint32, mi matInfo, std140 bool, depth int) uint64 {
 		}
 		if n == 3 {
 			n = 4
+		}
+		if n == 0 {
+			n = 1
 		}
 		a := n * c.scalarAlign(t.elem)
 		if std140 {
